@@ -9,6 +9,7 @@ mod rng;
 mod c15;
 mod pool;
 mod poolgen;
+mod votor;
 
 use std::fs;
 use std::io::Write;
@@ -154,6 +155,7 @@ fn real_main() {
                 "C15" => c15::generate(seed, tier),
                 "C03" => poolgen::gen_c03(seed, tier),
                 "C04" => poolgen::gen_c04(seed, tier),
+                "C05" => votor::gen_c05(seed, tier),
                 "C06" => poolgen::gen_c06(seed, tier),
                 "C07" => poolgen::gen_c07(seed, tier),
                 "C08" => poolgen::gen_c08(seed, tier),
